@@ -51,9 +51,9 @@ func (a Arg) String() string {
 
 // Config is one member of a family: a harness function and its concrete arguments.
 type Config struct {
-	Name string
-	Func string
-	Args []Arg
+	Name    string
+	Func    string
+	Args    []Arg
 	Harness *Harness `json:"-"` // nil: the spec's main harness
 	// Setup, if set, customises the interpreter before the run (hooks, limits).
 	Setup func(in *symgo.Interp) `json:"-"`
@@ -74,34 +74,35 @@ type OblResult struct {
 }
 
 type Outcome struct {
-	Config  Config
-	Err     string
-	Obls    []OblResult
-	Instrs  int
-	Forks   int
-	Queries int
-	SolverS float64
-	WallS   float64
-	Funcs   []string
-	Natives []string
-	Stubs   []string
-	Unwind  []string
-	Opaque  int
+	Config     Config
+	Err        string
+	Obls       []OblResult
+	Instrs     int
+	Forks      int
+	Queries    int
+	SolverS    float64
+	WallS      float64
+	Funcs      []string
+	Natives    []string
+	Stubs      []string
+	Unwind     []string
+	Opaque     int
 	Abstracted bool
-	Exports map[string]symgo.Value `json:"-"`
-	Interp  *symgo.Interp          `json:"-"`
+	Exports    map[string]symgo.Value `json:"-"`
+	Interp     *symgo.Interp          `json:"-"`
 }
 
 type RunOpts struct {
-	Pkg       string   // package of the harness functions, e.g. "pkg/procbuilder"
-	Inits     []string // packages whose init is interpreted
-	Workers   int
-	TimeoutMs int
-	PanicObl  bool // panics are obligations (must not happen)
-	Abstract  bool // UF abstraction of mul/div
-	KeepInterp bool
-	Solver    string
-	Post      func(o *Outcome, in *symgo.Interp) // extra obligations built by the driver (e.g. against vlog terms)
+	Pkg           string   // package of the harness functions, e.g. "pkg/procbuilder"
+	Inits         []string // packages whose init is interpreted
+	Workers       int
+	TimeoutMs     int
+	PanicObl      bool // panics are obligations (must not happen)
+	Abstract      bool // UF abstraction of mul/div
+	KeepInterp    bool
+	Solver        string
+	ConfigBudgetS int                                // wall-clock budget of the symbolic run of one configuration (default 120 s)
+	Post          func(o *Outcome, in *symgo.Interp) // extra obligations built by the driver (e.g. against vlog terms)
 }
 
 // RunFamily executes every configuration symbolically and discharges its obligations.
@@ -120,7 +121,13 @@ func RunFamily(p *symgo.Program, cfgs []Config, opt RunOpts) []Outcome {
 		go func() {
 			defer wg.Done()
 			for i := range jobs {
+				if os.Getenv("BMV_PROGRESS") != "" {
+					fmt.Fprintf(os.Stderr, "start %s\n", cfgs[i].Name)
+				}
 				out[i] = runOne(p, cfgs[i], opt)
+				if os.Getenv("BMV_PROGRESS") != "" {
+					fmt.Fprintf(os.Stderr, "done  %s %.1fs %s\n", cfgs[i].Name, out[i].WallS, out[i].Err)
+				}
 			}
 		}()
 	}
@@ -145,6 +152,11 @@ func runOne(p *symgo.Program, cfg Config, opt RunOpts) (o Outcome) {
 	defer sol.Close()
 	in := symgo.NewInterp(p, st, sol)
 	in.PanicAsObligation = opt.PanicObl
+	budget := opt.ConfigBudgetS
+	if budget <= 0 {
+		budget = 120
+	}
+	in.Deadline = t0.Add(time.Duration(budget) * time.Second)
 	if cfg.Setup != nil {
 		cfg.Setup(in)
 	}
